@@ -968,7 +968,7 @@ class CollapseCollector(WrappingCollector):
                 sub_docnum = matcher.id()
                 ckey = keyer.key_to_name(keyer.key_for(matcher, sub_docnum))
                 matcher.next()
-                if ckey:
+                if not self._is_empty_key(ckey):
                     if counters[ckey] >= limit:
                         continue
                     counters[ckey] += 1
@@ -983,6 +983,12 @@ class CollapseCollector(WrappingCollector):
         else:
             return ilen(self.all_ids())
 
+    @staticmethod
+    def _is_empty_key(ckey):
+        # Documents without a value for the collapse facet are never
+        # collapsed. (Zero and False are values.)
+        return ckey is None or ckey == u"" or ckey == b""
+
     def collect_matches(self):
         lists = self.lists
         limit = self.limit
@@ -996,7 +1002,7 @@ class CollapseCollector(WrappingCollector):
         for sub_docnum in child.matches():
             # Collapsing category key
             ckey = keyer.key_to_name(keyer.key_for(matcher, sub_docnum))
-            if not ckey:
+            if self._is_empty_key(ckey):
                 # If the document isn't in a collapsing category, just add it
                 child.collect(sub_docnum)
             else:
